@@ -4,14 +4,21 @@
                                 u8 u16 u32 u64 u128 usize i8 i16 i32 i64 i128 isize, or (source
                                 only) bool / char; <hex> = source pattern (bool: 0/1, char: code
                                 point).  Answer: hex pattern of the destination.
+    as <src> <dst> <hex>        the same cast through the blanket `As::as_` (same answer)
     cast_signed <cfg> <hex> | cast_unsigned <cfg> <hex> | to_bits <cfg> <hex> | from_bits <cfg> <hex>
                                 Answer: hex pattern.
+    cast_unsigned_obs | to_bits_obs <icfg> <hex>      the harness builds the `BInt` without `from_bits`
+    cast_signed_obs <ucfg> <hex> | from_bits_obs <icfg> <hex>
+                                Answer: `<hex pattern read through as_bits().digits()>/<is_negative()>`
+    reinterp_vs_cast <cfg> <hex>   `x.cast_signed() == BInt::cast_from(x)` (unsigned cfg) resp.
+                                `cast_unsigned / to_bits / from_bits == the same-width As cast`: `true`, `true/true/true`
   The standard `Handler` receives the already parsed source config (`wKxN`); a config with `N = 0`
   (`u64x0`) stands for the primitive of that width.  `handleRaw` takes the raw tokens instead, for
   drivers that do not pre-parse the first argument (primitive names, bool, char).
 -/
 import Bnum.Drive.Util
 import Bnum.Model.Cast
+import Bnum.Model.C09Extra
 import Bnum.Spec.Cast
 namespace Bnum.Drive.C09
 open Bnum Bnum.Drive
@@ -46,33 +53,55 @@ def showCfg (c : Cfg) : String := (if c.signed then "i" else "u") ++ toString c.
 /-- parse a primitive pattern (reduced mod `2^bits`) -/
 def parsePat (bits : Nat) (s : String) : Option Nat := (parseHex s).map (· % 2 ^ bits)
 
+/-- the route of the request: `cast` = `<D as CastFrom<S>>::cast_from(x)`, `as` = `x.as_::<D>()` -/
+def route {σ τ : Type} (viaAs : Bool) (castFrom : σ → τ) (x : σ) : τ :=
+  if viaAs then as_ castFrom x else castFrom x
+
+def castAns (viaAs : Bool) (src dst v : String) : Option (String × String) := do
+  let src ← parseTy src; let dst ← parseTy dst
+  match src, dst with
+  | .bnum c₁, .bnum c₂ =>
+    let x ← parseVal c₁ v
+    some (showOut (showVal c₂) (route viaAs (fun x => castBnum c₁.w c₁.signed x c₂.w c₂.n c₂.signed) x),
+          toHex (Spec.cast c₁.signed (M c₁.w c₁.n) (U c₁.w x) (M c₂.w c₂.n)))
+  | .bnum c₁, .prim t =>
+    let x ← parseVal c₁ v
+    some (showOut toHex (route viaAs (fun x => castToPrim c₁.w c₁.signed x t) x),
+          toHex (Spec.cast c₁.signed (M c₁.w c₁.n) (U c₁.w x) (2 ^ t.bits)))
+  | .prim t, .bnum c₂ =>
+    let p ← parsePat t.bits v
+    some (showOut (showVal c₂) (route viaAs (castFromPrim c₂.w c₂.n c₂.signed t) p),
+          toHex (Spec.cast t.signed (2 ^ t.bits) p (M c₂.w c₂.n)))
+  | .prim t₁, .prim t₂ =>
+    -- `primitive_cast_impl!` (`from as Self`)
+    let p ← parsePat t₁.bits v
+    some (toHex (route viaAs (castPrim t₁ t₂) p),
+          toHex (Spec.cast t₁.signed (2 ^ t₁.bits) p (2 ^ t₂.bits)))
+  | .bool, .bnum c₂ =>
+    let b ← parseBool v
+    some (showVal c₂ (route viaAs (fun b => if c₂.signed then II.castFromBool c₂.n b else UI.castFromBool c₂.n b) b),
+          toHex (Spec.cast false 2 b.toNat (M c₂.w c₂.n)))
+  | .char, .bnum c₂ =>
+    let p ← parsePat 32 v
+    some (showOut (showVal c₂)
+            (route viaAs (fun p => if c₂.signed then II.castFromChar c₂.w c₂.n p else UI.castFromChar c₂.w c₂.n p) p),
+          toHex (Spec.cast false (2 ^ 32) p (M c₂.w c₂.n)))
+  | _, _ => none
+
+/-- `pattern/is_negative` of a `BInt` (what `as_bits().digits()` and `is_negative()` show) -/
+def showObs (c : Cfg) (r : List Nat) : String := showVal c r ++ "/" ++ showBool (isNegative c.w r)
+/-- … and what they must show for a `BInt` holding the pattern `u`: the sign is bit `BITS - 1` -/
+def specObs (c : Cfg) (u : Nat) : String := toHex u ++ "/" ++ showBool (decide (M c.w c.n ≤ 2 * u))
+/-- `cast == reinterpretation` as the harness prints it (`P` if the cast panics) -/
+def eqOut (o : Outcome (List Nat)) (r : List Nat) : Option String :=
+  match o with
+  | .ok a => some (showBool (a == r))
+  | .panic => none
+
 def handleRaw (op : String) (args : List String) : Option (String × String) :=
   match op, args with
-  | "cast", [src, dst, v] => do
-    let src ← parseTy src; let dst ← parseTy dst
-    match src, dst with
-    | .bnum c₁, .bnum c₂ =>
-      let x ← parseVal c₁ v
-      some (showOut (showVal c₂) (castBnum c₁.w c₁.signed x c₂.w c₂.n c₂.signed),
-            toHex (Spec.cast c₁.signed (M c₁.w c₁.n) (U c₁.w x) (M c₂.w c₂.n)))
-    | .bnum c₁, .prim t =>
-      let x ← parseVal c₁ v
-      some (showOut toHex (castToPrim c₁.w c₁.signed x t),
-            toHex (Spec.cast c₁.signed (M c₁.w c₁.n) (U c₁.w x) (2 ^ t.bits)))
-    | .prim t, .bnum c₂ =>
-      let p ← parsePat t.bits v
-      some (showOut (showVal c₂) (castFromPrim c₂.w c₂.n c₂.signed t p),
-            toHex (Spec.cast t.signed (2 ^ t.bits) p (M c₂.w c₂.n)))
-    | .bool, .bnum c₂ =>
-      let b ← parseBool v
-      some (showVal c₂ (if c₂.signed then II.castFromBool c₂.n b else UI.castFromBool c₂.n b),
-            toHex (Spec.cast false 2 b.toNat (M c₂.w c₂.n)))
-    | .char, .bnum c₂ =>
-      let p ← parsePat 32 v
-      some (showOut (showVal c₂)
-              (if c₂.signed then II.castFromChar c₂.w c₂.n p else UI.castFromChar c₂.w c₂.n p),
-            toHex (Spec.cast false (2 ^ 32) p (M c₂.w c₂.n)))
-    | _, _ => none
+  | "cast", [src, dst, v] => castAns false src dst v
+  | "as", [src, dst, v] => castAns true src dst v
   | "cast_signed", [c, v] => do
     let c ← parseCfg c; let x ← parseVal c v
     some (showVal c (UI.castSigned x), toHex (U c.w x))
@@ -85,11 +114,40 @@ def handleRaw (op : String) (args : List String) : Option (String × String) :=
   | "from_bits", [c, v] => do
     let c ← parseCfg c; let x ← parseVal c v
     some (showVal c (II.fromBits x), toHex (U c.w x))
+  -- the same functions observed without `from_bits`/`to_bits` on the harness side
+  | "cast_unsigned_obs", [c, v] => do
+    let c ← parseCfg c; let x ← parseVal c v
+    some (showVal c (II.castUnsigned x), toHex (U c.w x))
+  | "to_bits_obs", [c, v] => do
+    let c ← parseCfg c; let x ← parseVal c v
+    some (showVal c (II.toBits x), toHex (U c.w x))
+  | "cast_signed_obs", [c, v] => do
+    let c ← parseCfg c; let x ← parseVal c v
+    some (showObs c (UI.castSigned x), specObs c (U c.w x))
+  | "from_bits_obs", [c, v] => do
+    let c ← parseCfg c; let x ← parseVal c v
+    some (showObs c (II.fromBits x), specObs c (U c.w x))
+  -- reinterpretation against the same-width `As` cast (`u`: cast_signed; `i`: cast_unsigned/to_bits/from_bits)
+  | "reinterp_vs_cast", [c, v] => do
+    let c ← parseCfg c; let x ← parseVal c v
+    if c.signed then
+      let toU := castBnum c.w true x c.w c.n false
+      let toI := castBnum c.w false x c.w c.n true
+      let mo := match eqOut toU (II.castUnsigned x), eqOut toU (II.toBits x), eqOut toI (II.fromBits x) with
+        | some a, some b, some d => a ++ "/" ++ b ++ "/" ++ d
+        | _, _, _ => "P"
+      some (mo, "true/true/true")
+    else
+      let mo := match eqOut (castBnum c.w false x c.w c.n true) (UI.castSigned x) with
+        | some a => a
+        | none => "P"
+      some (mo, "true")
   | _, _ => none
 
 def handle : Handler := fun c op args =>
   match op with
-  | "cast" | "cast_signed" | "cast_unsigned" | "to_bits" | "from_bits" =>
+  | "cast" | "as" | "cast_signed" | "cast_unsigned" | "to_bits" | "from_bits" | "cast_signed_obs"
+  | "cast_unsigned_obs" | "to_bits_obs" | "from_bits_obs" | "reinterp_vs_cast" =>
     handleRaw op (showCfg c :: args)
   | _ => none
 
